@@ -28,7 +28,7 @@ claim("C03", "other",
       "DESIGN.md 5/C03")
 
 claim("C04", "other",
-      "Decides the three gates a definite TryEval answer rests on: operators never see a DNE operand (the only operator application in TryEval's own code is behind contains(params, DNE) == false, plus the cond arm), shortcut polarity of the operator proxy, fetch only under Cached == true for the same keys; and that the polarity tables used by the climbing loop agree with the compiler's. Does not decide the upward propagation itself. Added: per arm of TryEval's main loop the pushed value is exactly the literal / fetchVariableValueProxy(curt) / executeOperatorProxy(curt, operands); operands are built as in Eval, fast-arm slot k is getNodeValueProxy(nodes[i+1+k]) and nothing else (R-STEPRES, R-STEPARGS). Added: R-CACHEDGET — for every fetcher of the package Cached == true excludes every error condition of Get.",
+      "Decides the three gates a definite TryEval answer rests on: operators never see a DNE operand (the only operator application in TryEval's own code is behind contains(params, DNE) == false, plus the cond arm), shortcut polarity of the operator proxy, fetch only under Cached == true for the same keys; and that the polarity tables used by the climbing loop agree with the compiler's. Does not decide the upward propagation itself. Added: per arm of TryEval's main loop the pushed value is exactly the literal / fetchVariableValueProxy(curt) / executeOperatorProxy(curt, operands); operands are built as in Eval, fast-arm slot k is getNodeValueProxy(nodes[i+1+k]) and nothing else (R-STEPRES, R-STEPARGS). Added: R-CACHEDGET — for every fetcher of the package Cached == true excludes every error condition of Get. Added by mutation probing: R-CONTAINS — the membership helper the proxy decides with is exact (true only under list[i]==x, false only after the whole list).",
       "call-site census + edge-dominance facts (with phi-&& expansion) + table extraction",
       "DESIGN.md 5/C04")
 
@@ -58,7 +58,7 @@ claim("C11", "other",
       "DESIGN.md 5/C11")
 
 claim("C12", "other",
-      "Decides non-interference and payload clauses: every container-typed component of a sent Event is allocated in the sending function and never written after the send (no aliasing of engine buffers), the operator wrapper is a transparent forwarder that reports the call's own result/error, the event arm of Eval/TryEval is a no-op on every loop-carried variable, Dump skips event nodes, and instrumentation is installed only under ReportEvent/Debug. Does not decide the remapped jump indices of event mode. Added: R-EVREMAP — the event-mode node array and parent table are rebuilt entry by entry in step, every appended node records its position in the table keyed by its original index, and the relabelling loop reads the right table under the -1 guards. R-WRAPID also requires the reported arguments to be a copy taken before the operator is applied (D15, repaired).",
+      "Decides non-interference and payload clauses: every container-typed component of a sent Event is allocated in the sending function and never written after the send (no aliasing of engine buffers), the operator wrapper is a transparent forwarder that reports the call's own result/error, the event arm of Eval/TryEval is a no-op on every loop-carried variable, Dump skips event nodes, and instrumentation is installed only under ReportEvent/Debug. Does not decide the remapped jump indices of event mode. Added: R-EVREMAP — the event-mode node array and parent table are rebuilt entry by entry in step, every appended node records its position in the table keyed by its original index, and the relabelling loop reads the right table under the -1 guards. R-WRAPID also requires the reported arguments to be a copy taken before the operator is applied (D15, repaired). Added by mutation probing: R-EVSTACK — the LOOP event's Stack is a complete copy of os[0..osTop] made before the send.",
       "SSA value-root analysis of send payloads + closure shape rule + phi inspection on the loop latch + edge-dominance facts",
       "DESIGN.md 5/C12")
 
@@ -68,12 +68,12 @@ claim("C13", "other",
       "DESIGN.md 5/C13")
 
 claim("C14", "other",
-      "Decides token-class agreement (every verbatim class of the lexer — opening rune and terminator — has a copy-through state with the same terminator in the formatter), the shared space predicate and delimiter constants, and that directives are read only from leading comment tokens while all comment tokens are removed before parsing. Does not decide token-sequence equality under arbitrary re-layout.",
+      "Decides token-class agreement (every verbatim class of the lexer — opening rune and terminator — has a copy-through state with the same terminator in the formatter), the shared space predicate and delimiter constants, and that directives are read only from leading comment tokens while all comment tokens are removed before parsing. Does not decide token-sequence equality under arbitrary re-layout. Added by mutation probing: the formatter's copy-through loops have no exit but the terminator and the end of the input, and the result is produced only after the main loop over the runes ended.",
       "rune-comparison extraction from lexer closures and formatter loop states + edge-dominance facts",
       "DESIGN.md 5/C14")
 
 claim("C15", "other",
-      "Decides the operator-table clause (documented precedence levels and arities read from the getInfixOpInfo switch, coverage of every symbolic operator of the operator table, aliases on one level) and the associativity rule (reduction stops only for a strictly tighter operator; comparePrecedence direction; operands popped last to first). Does not decide the shunting-yard algorithm as a whole. Added: R-REDUCEGATE — an operator is built only on the losing edge of the precedence comparison against the arriving token, the matched parenthesis ends the reduction, and an arriving prefix operator reduces nothing (the tree as found violated the last clause: D13, repaired). Added: R-OPNAMES — a name is read as an undefined variable only when the operator-node builder's own resolver does not know it.",
+      "Decides the operator-table clause (documented precedence levels and arities read from the getInfixOpInfo switch, coverage of every symbolic operator of the operator table, aliases on one level) and the associativity rule (reduction stops only for a strictly tighter operator; comparePrecedence direction; operands popped last to first). Does not decide the shunting-yard algorithm as a whole. Added: R-REDUCEGATE — an operator is built only on the losing edge of the precedence comparison against the arriving token, the matched parenthesis ends the reduction, and an arriving prefix operator reduces nothing (the tree as found violated the last clause: D13, repaired). Added: R-OPNAMES — a name is read as an undefined variable only when the operator-node builder's own resolver does not know it. Added by mutation probing: R-INFIXWHOLE — the infix parser's main loop ends only when no token is left and every operator node is built from all operands popped for it.",
       "switch-table extraction from typed syntax + SSA term recovery and loop-exit condition rule",
       "DESIGN.md 5/C15")
 
@@ -93,7 +93,7 @@ claim("C20", "other",
       "DESIGN.md 5/C20")
 
 claim("C06", "other",
-      "A panic-site obligation ledger over the whole API closure (Compile, Eval, TryEval, Dump, DumpTable, IndentByParentheses and everything they reach): every index, slice expression, single-result type assertion, integer division, interface comparison, non-constant make and call of a table-held function value gets exactly one verdict — discharged by a sound guard dataflow (difference constraints over registers, variables and fields with inductively verified non-negativity invariants, mod-set kills, predicate summaries) or by kind/type/zero/comparability gates; listed as invariant-governed (compile-time table indices: not decided, never an alarm); covered by a frozen-table entry with its reason; or reported. Plus arity/type-error discipline of all built-ins, never (nil, nil) from Compile, no panic/exit/go in the closure. On the pinned tree it reports exactly the five panic defects that were then repaired. Does not decide termination nor the table-indexed sites of the evaluator.",
+      "A panic-site obligation ledger over the whole API closure (Compile, Eval, TryEval, Dump, DumpTable, IndentByParentheses and everything they reach): every index, slice expression, single-result type assertion, integer division, interface comparison, non-constant make and call of a table-held function value gets exactly one verdict — discharged by a sound guard dataflow (difference constraints over registers, variables and fields with inductively verified non-negativity invariants, mod-set kills, predicate summaries) or by kind/type/zero/comparability gates; listed as invariant-governed (compile-time table indices: not decided, never an alarm); covered by a frozen-table entry with its reason; or reported. Plus arity/type-error discipline of all built-ins, never (nil, nil) from Compile, no panic/exit/go in the closure. On the pinned tree it reports exactly the five panic defects that were then repaired. Does not decide termination nor the table-indexed sites of the evaluator. Added by mutation probing: R-ERRDROP — no return of the API closure reports success on the non-nil edge of an error obtained from a call (a swallowed parser error is how a nil node reaches a dereference; the ledger does not model nil dereferences itself).",
       "obligation ledger: forward must-dataflow over a difference-constraint domain on SSA + edge-dominance gates + frozen table",
       "DESIGN.md 5/C06")
 
